@@ -231,6 +231,9 @@ def hash_reads(ck, P):
 
 def run(ck):
     exclusive_access(ck, prog("K1"))
+    # a header write suspended before a reset must not leave its offset behind (round 9)
+    from . import c20 as _c20s
+    _c20s.resume_from_gzindex(ck, prog("K1"))
     stale_state(ck, prog("K1"))
     hash_reads(ck, prog("K1"))
     # kernels agree with the portable code only if the deferred-modulo stride stays within NMAX and every CRC back-end starts from `start`
